@@ -214,17 +214,31 @@ func sxDiffLabel(a, b string) string {
 		i++
 	}
 	var stack []string
+	var items []int // number of items started so far in each open list
 	for j := 0; j < i && j < len(a); j++ {
 		switch a[j] {
 		case '(':
+			if len(items) > 0 {
+				items[len(items)-1]++
+			}
 			k := j + 1
 			for k < len(a) && a[k] != ' ' && a[k] != ')' && a[k] != '(' {
 				k++
 			}
 			stack = append(stack, a[j+1:k])
+			items = append(items, 0)
+			if k > j+1 {
+				items[len(items)-1] = 1
+				j = k - 1
+			}
 		case ')':
 			if len(stack) > 0 {
 				stack = stack[:len(stack)-1]
+				items = items[:len(items)-1]
+			}
+		case ' ':
+			if j+1 < len(a) && a[j+1] != '(' && len(items) > 0 {
+				items[len(items)-1]++
 			}
 		}
 	}
@@ -234,7 +248,21 @@ func sxDiffLabel(a, b string) string {
 			tags = append([]string{stack[j]}, tags...)
 		}
 	}
-	return strings.Join(tags, "-")
+	label := strings.Join(tags, "-")
+	// directly inside the loaded-schema node: name the component
+	for j := len(stack) - 1; j >= 0; j-- {
+		if stack[j] == "" || stack[j][0] < 'A' || stack[j][0] > 'Z' {
+			continue
+		}
+		if stack[j] == "SCHEMA" && label == "SCHEMA" {
+			names := []string{"", "tag", "query-root", "mutation-root", "subscription-root", "schema-directives", "types", "directives", "possibleTypes", "implements", "description"}
+			if n := items[j]; n < len(names) {
+				label += "." + names[n]
+			}
+		}
+		break
+	}
+	return label
 }
 
 // errLabel: a stable short label of an error: the message up to the first quotation mark,
